@@ -25,6 +25,12 @@ Theorem C08_union_flags_refuted : ~ C08_nested_full.
 Proof. exact union_flags_refuted. Qed.
 Print Assumptions C08_union_flags_refuted.
 
+(* known finding C08/subclass-instance-flags: a field of type A holding an instance of a subclass B(A)
+   that enabled a keyword flag: the call names the flags of the declared class A *)
+Theorem C08_subclass_flags_refuted : ~ C08_nested_full.
+Proof. exact subclass_flags_refuted. Qed.
+Print Assumptions C08_subclass_flags_refuted.
+
 (* a directly nested class receives exactly the flags enabled on both sides ... *)
 Theorem C08_forwarded_exactly :
   forall (ct: list cls) (outer: flags) (cid: nat),
@@ -53,6 +59,26 @@ Theorem C08_option_free_is_plain :
     = Some (POpq 0, PDict (dict_of (plain_out (map fst c.(c_fields)) vs))).
 Proof. intros ct. exact (option_free_is_plain ct true). Qed.
 Print Assumptions C08_option_free_is_plain.
+
+(* the projection commutes with containers: a List[<dataclass>] / Dict[str, <dataclass>] field is
+   projected element by element, every element receiving the same flags and keyword values *)
+Theorem C08_list_elementwise :
+  forall (ct: list cls) (nailed spec: bool) (items: list node) (members: list nat) (outer: flags) (a: kwv) (pd: option ns),
+    pack_h ct nailed spec (NList items) members outer a pd =
+    match go_items (fun x => pack_h ct nailed spec x members outer a pd) items with
+    | Some l => Some (POpq (S (List.length items)), PList l)
+    | None => None end.
+Proof. exact pack_h_list. Qed.
+Print Assumptions C08_list_elementwise.
+
+Theorem C08_dict_elementwise :
+  forall (ct: list cls) (nailed spec: bool) (items: list (string * node)) (members: list nat) (outer: flags) (a: kwv) (pd: option ns),
+    pack_h ct nailed spec (NDict items) members outer a pd =
+    match go_entries (fun x => pack_h ct nailed spec x members outer a pd) items with
+    | Some l => Some (POpq (S (List.length items)), PDict l)
+    | None => None end.
+Proof. exact pack_h_dict. Qed.
+Print Assumptions C08_dict_elementwise.
 
 (* ---- codec path: BasicEncoder(cls, default_dialect=dd).encode(x) ---- *)
 Definition C08_codec_full : Prop :=
@@ -95,9 +121,9 @@ Definition ex_ct : list cls :=
   [ {| c_mixin := true; c_cfgd := Some {| n_on := T; n_od := U; n_ba := U |}; c_cfg := ns_unset; c_sort := false; c_flags := fl_on;
        c_fields := [({| p_name := "i"; p_alias := None; p_ty := TyPlain; p_trivial := false; p_default := DNo; p_omit := false |}, [1]);
                     ({| p_name := "j"; p_alias := None; p_ty := TyPlain; p_trivial := false; p_default := DNo; p_omit := false |}, [2]);
-                    (fld "x", [])] |};
-    {| c_mixin := true; c_cfgd := None; c_cfg := ns_unset; c_sort := false; c_flags := fl_on; c_fields := [(fld "a", [])] |};
-    {| c_mixin := false; c_cfgd := None; c_cfg := ns_unset; c_sort := false; c_flags := fl_none; c_fields := [(fld "b", [])] |} ]%nat.
+                    (fld "x", [])]; c_parent := None |};
+    {| c_mixin := true; c_cfgd := None; c_cfg := ns_unset; c_sort := false; c_flags := fl_on; c_fields := [(fld "a", [])]; c_parent := None |};
+    {| c_mixin := false; c_cfgd := None; c_cfg := ns_unset; c_sort := false; c_flags := fl_none; c_fields := [(fld "b", [])]; c_parent := None |} ]%nat.
 Definition ex_inst : node := NObj 0 [NObj 1 [NLeaf PNone PNone]; NObj 2 [NLeaf PNone PNone]; NLeaf PNone PNone].
 
 Example C08_nested_nonvacuous :
@@ -110,9 +136,9 @@ Definition exc_ct : list cls :=
   [ {| c_mixin := true; c_cfgd := None; c_cfg := ns_unset; c_sort := false; c_flags := fl_on;
        c_fields := [({| p_name := "i"; p_alias := None; p_ty := TyPlain; p_trivial := false; p_default := DNo; p_omit := false |}, [1]);
                     ({| p_name := "j"; p_alias := None; p_ty := TyPlain; p_trivial := false; p_default := DNo; p_omit := false |}, [2]);
-                    (fld "x", [])] |};
-    {| c_mixin := true; c_cfgd := Some {| n_on := F; n_od := U; n_ba := U |}; c_cfg := ns_unset; c_sort := false; c_flags := fl_on; c_fields := [(fld "a", [])] |};
-    {| c_mixin := false; c_cfgd := None; c_cfg := ns_unset; c_sort := false; c_flags := fl_none; c_fields := [(fld "b", [])] |} ]%nat.
+                    (fld "x", [])]; c_parent := None |};
+    {| c_mixin := true; c_cfgd := Some {| n_on := F; n_od := U; n_ba := U |}; c_cfg := ns_unset; c_sort := false; c_flags := fl_on; c_fields := [(fld "a", [])]; c_parent := None |};
+    {| c_mixin := false; c_cfgd := None; c_cfg := ns_unset; c_sort := false; c_flags := fl_none; c_fields := [(fld "b", [])]; c_parent := None |} ]%nat.
 Example C08_codec_nonvacuous :
   ok_h exc_ct false ex_inst [0%nat] root_flags no_kw (Some {| n_on := T; n_od := U; n_ba := U |}) = true /\
   to_dict_codec exc_ct false ex_inst 0 (Some {| n_on := T; n_od := U; n_ba := U |})
